@@ -179,7 +179,7 @@ func (u *Unit) rangeFacts(st *State, s string, t types.Type, depth int) string {
 		var fs []string
 		for i := 0; i < ut.NumFields(); i++ {
 			f := ut.Field(i)
-			fs = append(fs, u.rangeFacts(st, fmt.Sprintf("(%s.%s %s)", name, sanitize(f.Name()), s), f.Type(), depth+1))
+			fs = append(fs, u.rangeFacts(st, fmt.Sprintf("(%s.%s %s)", name, fldName(f, i), s), f.Type(), depth+1))
 		}
 		return and(fs...)
 	case *types.Basic:
@@ -438,6 +438,15 @@ func (u *Unit) readGlobal(st *State, v *types.Var) Term {
 		}
 		u.c.declareFun(name, "() "+u.c.sortOf(v.Type()))
 		t := Term{S: name, T: v.Type()}
+		// an immutable package variable initialised with something other than nil is non-nil (trusted initialiser)
+		if init := u.eng.globalInit(v); init != nil && u.c.sortOf(v.Type()) == "Int" {
+			if id, ok := ast.Unparen(init).(*ast.Ident); !ok || id.Name != "nil" {
+				switch v.Type().Underlying().(type) {
+				case *types.Pointer, *types.Interface, *types.Map, *types.Signature, *types.Chan:
+					u.c.declareRaw("nonnil_"+name, "(assert (> "+name+" 0))")
+				}
+			}
+		}
 		return t
 	}
 	return u.freshOf(st, v.Type(), name)
@@ -628,7 +637,7 @@ func (u *Unit) fieldGet(base Term, i int) Term {
 	st := base.T.Underlying().(*types.Struct)
 	name := u.c.sortOf(base.T)
 	f := st.Field(i)
-	return Term{S: fmt.Sprintf("(%s.%s %s)", name, sanitize(f.Name()), base.S), T: f.Type()}
+	return Term{S: fmt.Sprintf("(%s.%s %s)", name, fldName(f, i), base.S), T: f.Type()}
 }
 
 // fieldSet returns base with field i replaced.
@@ -640,7 +649,7 @@ func (u *Unit) fieldSet(base Term, i int, val string) Term {
 		if k == i {
 			fs = append(fs, val)
 		} else {
-			fs = append(fs, fmt.Sprintf("(%s.%s %s)", name, sanitize(stt.Field(k).Name()), base.S))
+			fs = append(fs, fmt.Sprintf("(%s.%s %s)", name, fldName(stt.Field(k), k), base.S))
 		}
 	}
 	return Term{S: "(mk_" + name + " " + strings.Join(fs, " ") + ")", T: base.T}
